@@ -1,22 +1,22 @@
-//@ unit U01 handlers/hunk.rs: handle_hunk_line (C01 once/in-order, C11 lag, OD, BufInv)
-use vstd::prelude::*;
-use std::borrow::Cow;
-use std::cmp::min;
+//@ include prelude/header.rs
+//@ unit U01 handlers/hunk.rs: handle_hunk_line (C01 once/in-order/text, C11 lag, OD, BufInv)
 verus! {
 //@ include prelude/base.rs
+//@ include prelude/std_assumed.rs
+//@ include prelude/render.rs
 //@ include prelude/state.rs
-
+//@ include prelude/opaque.rs
 //@ shims merge_conflict grep tabs utils::tabs config
+//@ broadcast vax::vax_group rax::rax_group r2x_group
 
-#[verifier::external_body]
-pub struct TabCfg { _p: u8 }
 //@ type src/config.rs Config keep=line_buffer_size,tab_cfg
-
 //@ type src/paint.rs Painter keep=minus_lines,plus_lines,writer,output_buffer
 //@ type src/delta.rs StateMachine keep=line,raw_line,state,painter,config,minus_line_counter
+//@ include prelude/render2.rs
+//@ include prelude/sm_inv.rs
 
 impl DiffType {
-    //@ stub src/delta.rs DiffType::n_parents
+    //@ stub src/delta.rs DiffType::n_parents spec=delta.n_parents
 }
 impl AmbiguousDiffMinusCounter {
     // assumed: decrements an isize (underflow needs 2^63 input lines; not an obligation)
@@ -29,15 +29,27 @@ impl<'p> Painter<'p> {
     //@ stub src/paint.rs Painter::emit spec=paint.emit
 }
 
-//@ stub src/paint.rs prepare
-//@ stub src/handlers/hunk.rs is_word_diff
-//@ stub src/handlers/hunk.rs new_line_state
-//@ stub src/utils/tabs.rs expand
+//@ stub src/paint.rs prepare spec=paint.prepare
+//@ stub src/handlers/hunk.rs is_word_diff spec=hunk.is_word_diff
+//@ stub src/handlers/hunk.rs new_line_state spec=hunk.new_line_state
+//@ stub src/utils/tabs.rs expand spec=tabs.expand
 
 impl StateMachine<'_> {
     //@ stub src/handlers/hunk_header.rs StateMachine::emit_hunk_header_line spec=hunk_header.emit_hunk_header_line
     //@ fn src/handlers/hunk.rs StateMachine::test_hunk_line
+    //@| ensures r == (self.state is HunkHeader || self.state is HunkZero || self.state is HunkMinus || self.state is HunkPlus),
     //@ fn src/handlers/hunk.rs StateMachine::handle_hunk_line spec=hunk.handle_hunk_line
+    //@before <<<if let State::HunkHeader(_, parsed_hunk_header, line, raw_line) = &self.state.clone()>>>| assert(/* @C01,C11:hhl.order.step */ all_lines(&self.painter) =~= all_lines(&old(self).painter));
+    //@before <<<self.state = match new_line_state(>>>| assert(/* @C01,C11:hhl.order.step */ all_lines(&self.painter) =~= all_lines(&old(self).painter)); let ghost mid = all_lines(&self.painter);
+    //@before <<<let n_parents = diff_type.n_parents(); let line = prepare(&self.line, n_parents, self.config); let state = HunkMinus(diff_type, raw_line);>>>| assert(/* @C01,C11:hhl.order.step */ all_lines(&self.painter) =~= mid); assert(self.painter.plus_lines@.len() == 0);
+    //@after <<<self.painter.minus_lines.push((line, state.clone()));>>>| assert(/* @C01,C11:hhl.order.step */ all_lines(&self.painter) =~= mid.push(self.painter.minus_lines@.last().0@));
+    //@after <<<self.painter.plus_lines.push((line, state.clone()));>>>| assert(/* @C01,C11:hhl.order.step */ all_lines(&self.painter) =~= mid.push(self.painter.plus_lines@.last().0@));
+    //@before <<<let n_parents = if is_word_diff()>>>| assert(/* @C01,C11:hhl.order.step */ all_lines(&self.painter) =~= mid); assert(pending(&self.painter) =~= Seq::<Seq<char>>::empty());
+    //@before <<<self.painter .output_buffer .push_str(>>>| assert(/* @C01,C11:hhl.order.step */ all_lines(&self.painter) =~= mid); assert(pending(&self.painter) =~= Seq::<Seq<char>>::empty()); let ghost buf0 = self.painter.output_buffer@;
+    //@before <<<self.painter.output_buffer.push('\n');>>>| assert(self.painter.output_buffer@ == buf0 + expand_spec(self.raw_line@, &self.config.tab_cfg));
+    //@after <<<self.painter.paint_zero_line(&line, state.clone());>>>| assert(/* @C01,C11:hhl.order.step */ all_lines(&self.painter) =~= mid.push(line@));
+    //@after <<<self.painter.output_buffer.push('\n');>>>| assert(/* @C01,C11:hhl.order.step */ all_lines(&self.painter) =~= mid.push(vis(expand_spec(self.raw_line@, &self.config.tab_cfg))));
+    //@before <<<self.painter.emit()?; Ok(true)>>>| assert(/* @C01,C11:hhl.order.step */ all_lines(&self.painter).drop_last() =~= all_lines(&old(self).painter));
 }
 
 } // verus!
